@@ -15,7 +15,7 @@ pub const FLOORS: &[&str] = &[
     "paused_on_directive_break", "paused_on_runtime_break", "paused_at_halt", "paused_outside_user_space",
     "paused_at_ffff", "ended_by_quit", "ended_by_eof", "end:returned", "end:exit_238", "end:exit_1",
     "malformed_command_in_script", "blank_command_in_script", "feature:loop", "feature:self_modify", "feature:nested_call",
-    "output:minimal", "output:decorated", "long_label", "break_table_with_long_label",
+    "output:minimal", "output:decorated", "long_label", "break_table_with_long_label", "halt_written_at_run_time",
 ];
 
 const FUEL: u64 = 15_000;
@@ -153,6 +153,53 @@ fn one_case(seed: u64, i: u64) -> CaseOut {
         ..Default::default()
     };
     let mut built = gen_structured(&mut rng, &o);
+    if i % 11 == 4 {
+        // programs which write a HALT into their own code at run time and then reach it (a patched
+        // placeholder, a routine copied into a buffer, a HALT planted inside a subroutine): where the
+        // run ends is decided by the word that is in memory when it is fetched
+        let st = |label: Option<&str>, stmt: Stmt| Item::Stmt { label: label.map(|l| l.to_string()), stmt };
+        let t = |l: &str| Target::Label(l.to_string());
+        let mut items: Vec<Item> = match o.origin { Some(v) => vec![Item::Orig(v)], None => vec![] };
+        items.extend(match (i / 11) % 3 {
+            0 => vec![
+                st(None, Stmt::Ld(0, t("hw"))),
+                st(None, Stmt::St(0, t("slot"))),
+                st(None, Stmt::AddI(1, 1, 1)),
+                st(Some("slot"), Stmt::AddI(2, 2, 0)),
+                st(None, Stmt::AddI(3, 3, 1)),
+                st(None, Stmt::Alias(0x25)),
+                st(Some("hw"), Stmt::Fill(0xF025)),
+            ],
+            1 => vec![
+                st(None, Stmt::Lea(1, t("buf"))),
+                st(None, Stmt::Ld(0, t("wadd"))),
+                st(None, Stmt::Str(0, 1, 0)),
+                st(None, Stmt::Ld(0, t("hw"))),
+                st(None, Stmt::Str(0, 1, 1)),
+                st(None, Stmt::Jsrr(1)),
+                st(None, Stmt::AddI(3, 3, 1)),
+                st(None, Stmt::Alias(0x25)),
+                st(Some("wadd"), Stmt::Fill(0x14A1)),
+                st(Some("hw"), Stmt::Fill(0xF025)),
+                st(Some("buf"), Stmt::Blkw(2)),
+            ],
+            _ => vec![
+                st(None, Stmt::Ld(0, t("hw"))),
+                st(None, Stmt::St(0, t("inside"))),
+                st(None, Stmt::Jsr(t("sub"))),
+                st(None, Stmt::AddI(3, 3, 1)),
+                st(None, Stmt::Alias(0x25)),
+                st(Some("sub"), Stmt::AddI(1, 1, 1)),
+                st(Some("inside"), Stmt::AddI(2, 2, 0)),
+                st(None, Stmt::Ret),
+                st(Some("hw"), Stmt::Fill(0xF025)),
+            ],
+        });
+        items.push(Item::End);
+        built.program = Program { items };
+        built.input.clear();
+        out.class("halt_written_at_run_time");
+    }
     // the comparison is about program output and machine state, not debugger text: a third of the
     // sessions use the decorated output mode, whose tables and listings are separate code paths
     let minimal = !rng.chance(1, 3);
